@@ -188,7 +188,7 @@ def make_driver(module, gen, init, nsteps, utype_sizes):
     return "\n".join(L) + "\n"
 
 
-def build_and_run(sources, options=("-g",), timeout=120, keep=False):
+def build_and_run(sources, options=("-g",), timeout=120, keep=False, libs=()):
     """sources: [(filename, text)], module first.  Returns dict with compile_rc, compile_stderr, run_rc,
     stdout, stderr ('run_rc' is None when compilation failed)."""
     tmp = tempfile.mkdtemp(prefix="c03_")
@@ -197,7 +197,7 @@ def build_and_run(sources, options=("-g",), timeout=120, keep=False):
             with open(os.path.join(tmp, name), "w") as fh:
                 fh.write(text)
         try:
-            p = subprocess.run([FC] + list(options) + ["-o", "runtest"] + [n for n, _ in sources],
+            p = subprocess.run([FC] + list(options) + ["-o", "runtest"] + [n for n, _ in sources] + list(libs),
                                cwd=tmp, capture_output=True, text=True, timeout=timeout)
         except subprocess.TimeoutExpired:
             return {"compile_rc": 124, "compile_stderr": "TIMEOUT", "run_rc": None, "stdout": "", "stderr": ""}
